@@ -367,7 +367,15 @@ def run(ctx):
                 else:
                     ctx.bad('C15.2-bigint-acceptance', inst, 'None is returned for big integers of %s digit bytes on, although up to 8 bytes may hold an i64' % lo, where,
                             key='RANGE:erltf_serde::de::bigint_to_i64:rejects-short-digits')
-        ctx.anchor(bool(mag), 'the magnitude is formed with from_le_bytes / from_be_bytes')
+        if k_ == 0:
+            # no hand-written `None`: the rejections come from checked std operations, which turn away exactly what does not fit
+            chk = sorted({(callee_of(t)[0] or '').rsplit('::', 1)[-1] for bb, t in HB.calls() if (callee_of(t)[0] or '').rsplit('::', 1)[-1] in
+                          ('try_from', 'try_into', 'checked_sub_unsigned', 'checked_neg', 'checked_sub', 'checked_add_unsigned', 'checked_abs')})
+            if chk:
+                ctx.ok('C15.2-bigint-acceptance', 'bigint_to_i64:checked', 'no literal None: every rejection is the failure of a checked std conversion (%s) or of the digit-count helper' % ', '.join(chk), ctx.where(HB))
+            else:
+                ctx.undecided('C15.2-bigint-acceptance', 'bigint_to_i64', 'no None literal and no checked conversion recognised', ctx.where(HB))
+        ctx.anchor(bool(mag) or k_ == 0, 'the magnitude is formed with from_le_bytes / from_be_bytes')
 
     # a char is up to four bytes of UTF-8: where the deserialiser hands out a char, the byte length of the text it came from
     # must not have been pinned below 4 (a byte length standing in for a character count turns every non-ASCII char away)
